@@ -93,7 +93,8 @@ impl CountMinSketch {
             return Err(CacheError::InvalidCountMinWidth(ctrs));
         }
 
-        let ctrs = ctrs.next_power_of_two();
+        // two 4-bit counters share a byte: a row needs at least two counters
+        let ctrs = ctrs.next_power_of_two().max(2);
         let hctrs = ctrs / 2;
 
         let mut source = StdRng::seed_from_u64(
